@@ -169,8 +169,10 @@ func c04Import1(w *c04W, kind int, tcs []c04Cont, mapped bool, e *c04Enc, clear 
 			return "", "", ""
 		}
 		t = c04NewKind(kind)
-		if err := t.UnmarshalBinary(d); err != nil {
-			return "", "", ""
+		var derr error
+		if p := vx.Guard(func() { derr = t.UnmarshalBinary(d) }); p != "" || derr != nil {
+			// the target's own encoding does not decode: a round-trip failure, reported as such
+			return "target-roundtrip", fmt.Sprint("mapped target cannot be built: ", derr, " ", p), "decodes"
 		}
 	}
 	wt := c04Want(tcs)
